@@ -3,7 +3,8 @@
    proof (closure/atom consistency, soundness through the generalised-Buechi lemma,
    completeness by a choice-free pigeonhole over atom indices) is in Proofs/LTLP.v,
    instantiated in Proofs/Assemble.v. *)
-From PMC Require Import Spec.Lemmas Proofs.Assemble.
+From PMC Require Import Spec.Lemmas Model.Memo Proofs.Assemble.
+From PMC Require Proofs.PrintP Proofs.MemoP.
 From PMC Require Proofs.LTLP Proofs.GraphP Proofs.SccP Proofs.InfPath Proofs.Corollaries2P.
 
 (* For EVERY well-formed total Kripke structure and EVERY LTL formula A g: the model
@@ -35,6 +36,19 @@ Theorem C02_lasso : forall K g, wf_kripke K -> ltl_path g = true ->
                   sat K (PMC.Proofs.InfPath.lasso pre cyc) (FNot g)).
 Proof. exact PMC.Proofs.Corollaries2P.ltl_excluded_iff_lasso. Qed.
 Print Assumptions C02_lasso.
+
+(* The CODE keeps closure and tableau atoms as Python sets of formula objects, i.e. every
+   membership test is by PRINTED form.  Model/Memo.v models exactly that
+   ([ltl_modelcheck_print]); over identifier atoms it returns the same list as the model above *)
+Theorem C02_print : forall K g, ltl_path g = true -> PMC.Proofs.PrintP.ident_atoms g = true -> arity_ok g = true ->
+  ltl_modelcheck_print K (FA g) = ltl_modelcheck K (FA g).
+Proof. exact PMC.Proofs.MemoP.ltl_print_sound. Qed.
+Print Assumptions C02_print.
+
+(* known finding KF-print-a for LTL: A(X(p) and not AtomicProposition "X(p)") on the p-loop *)
+Theorem C02_print_refuted : exists K g, ltl_path g = true /\ ltl_modelcheck_print K (FA g) <> ltl_modelcheck K (FA g).
+Proof. exact PMC.Proofs.MemoP.ltl_print_refuted. Qed.
+Print Assumptions C02_print_refuted.
 
 (* only formulas of the form A g with g quantifier-free are accepted *)
 Theorem C02_guard : forall K f, ltl_state f = false -> ltl_modelcheck K f = TypeErr.
